@@ -7,6 +7,8 @@ package main
 // L2: consecutive real blocks (proposer rotation, absences, fee-paying txs) through the real ABCI calls.
 
 import (
+	layer2keeper "github.com/KiraCore/sekai/x/layer2/keeper"
+	layer2types "github.com/KiraCore/sekai/x/layer2/types"
 	"bytes"
 	"fmt"
 	"regexp"
@@ -58,6 +60,7 @@ type c10 struct {
 	hist   []string // op lines of the current episode (replay of a failure)
 	known  map[int]bool // accounts that have ever been a delegator (for the rewards scan)
 	prevSet bool        // a previous proposer has been recorded (BeginBlocker panics without one)
+	extBurnt map[string]sdkmath.Int // share denom -> amount its holders burnt through layer2 MsgMintBurnTx
 }
 
 func c10Balance() sdk.Coins {
@@ -407,7 +410,20 @@ func (e *c10) obsAll() {
 	e.obsTreasury()
 	e.obsVotes()
 	e.op("ms obs supply 0.0", e.w.app.BankKeeper.GetSupply(e.ctx, "ukex").Amount.String())
-	e.op("ms obs inv", "1 1") // the model's own evaluation of the proved invariants on ITS state
+	// the model's own evaluation of the proved invariants on ITS state; the first one (share supply = recorded shares) is
+	// lost once a holder burnt share tokens through the layer2 module (recorded finding): then the implementation's value
+	shareEq := 1
+	for _, p := range e.w.app.MultiStakingKeeper.GetAllStakingPools(e.ctx) {
+		for _, sc := range p.TotalShareTokens {
+			if !e.w.app.BankKeeper.GetSupply(e.ctx, sc.Denom).Amount.Equal(sc.Amount) {
+				shareEq = 0
+			}
+		}
+	}
+	if len(e.extBurnt) == 0 {
+		shareEq = 1
+	}
+	e.op("ms obs inv", fmt.Sprintf("%d 1", shareEq))
 }
 
 // ---------- the oracle of the property on the implementation (state part), after every op
@@ -422,7 +438,12 @@ func (e *c10) oracleState(opKind string) {
 		for _, sc := range p.TotalShareTokens {
 			sup := app.BankKeeper.GetSupply(ctx, sc.Denom).Amount
 			if !sup.Equal(sc.Amount) {
-				e.r.Fail("C10/"+opKind+"/share-supply-differs-from-record", fmt.Sprintf("pool %d: bank supply of %s is %s, recorded share total %s", p.Id, sc.Denom, sup, sc.Amount), e.replay())
+				msg := fmt.Sprintf("pool %d: bank supply of %s is %s, recorded share total %s", p.Id, sc.Denom, sup, sc.Amount)
+				if ext, ok := e.extBurnt[sc.Denom]; ok && sc.Amount.Sub(sup).Equal(ext) {
+					e.r.Known("C10/l2-burn/share-supply-below-record", msg+fmt.Sprintf(" (holders burnt %s through layer2 MsgMintBurnTx)", ext))
+				} else {
+					e.r.Fail("C10/"+opKind+"/share-supply-differs-from-record", msg, e.replay())
+				}
 			}
 		}
 	}
@@ -430,6 +451,9 @@ func (e *c10) oracleState(opKind string) {
 		if m := reShare.FindStringSubmatch(c.Denom); m != nil {
 			id, _ := strconv.ParseUint(m[1], 10, 64)
 			rec := sdk.Coins(byId[id].TotalShareTokens).AmountOf(c.Denom)
+			if ext, ok := e.extBurnt[c.Denom]; ok && rec.Sub(c.Amount).Equal(ext) {
+				return false // reported above as the recorded finding
+			}
 			if !rec.Equal(c.Amount) {
 				e.r.Fail("C10/"+opKind+"/share-supply-differs-from-record", fmt.Sprintf("bank supply of %s is %s, pool %d records %s", c.Denom, c.Amount, id, rec), e.replay())
 			}
@@ -485,6 +509,32 @@ func (e *c10) delegate(a, v int, amts sdk.Coins) error {
 		e.known[a] = true
 	}
 	e.oracleState("delegate")
+	return err
+}
+
+// l2burn: a delegator burns share tokens of a pool through layer2 MsgMintBurnTx (any registered denomination can be burnt
+// there by whoever holds it)
+func (e *c10) l2burn(a int, c sdk.Coin) error {
+	l2 := layer2keeper.NewMsgServerImpl(e.w.app.Layer2Keeper)
+	err := withCache(e.ctx, func(cc sdk.Context) error {
+		_, er := l2.MintBurnTx(sdk.WrapSDKContext(cc), &layer2types.MsgMintBurnTx{Sender: e.w.addrs[a].String(), Denom: c.Denom, Amount: c.Amount})
+		return er
+	})
+	e.op(fmt.Sprintf("ms l2burn a=%d %s", a, e.coinsW(sdk.NewCoins(c))), c10okErr(err))
+	if err == nil {
+		if e.extBurnt == nil {
+			e.extBurnt = map[string]sdkmath.Int{}
+		}
+		if cur, ok := e.extBurnt[c.Denom]; ok {
+			e.extBurnt[c.Denom] = cur.Add(c.Amount)
+		} else {
+			e.extBurnt[c.Denom] = c.Amount
+		}
+	}
+	e.obsAcct(a)
+	e.r.Count("l2burn:" + c10okErr(err))
+	e.r.Case(fmt.Sprintf("l2burn/%d/%s/%v", a, c, err == nil), err == nil)
+	e.oracleState("l2burn")
 	return err
 }
 
@@ -1152,6 +1202,28 @@ func (e *c10) episode(n int, ep int) {
 			}
 			continue
 		}
+		if rng.Intn(60) == 0 {
+			// a delegator burns some of its share tokens through the layer2 module instead of undelegating them
+			var cands []sdk.Coin
+			var who []int
+			for j := 0; j < e.nAcc; j++ {
+				for _, c := range app.BankKeeper.GetAllBalances(e.ctx, e.w.addrs[j]) {
+					if reShare.MatchString(c.Denom) {
+						cands = append(cands, c)
+						who = append(who, j)
+					}
+				}
+			}
+			if len(cands) > 0 {
+				i := rng.Intn(len(cands))
+				amt := sdkmath.NewInt(1 + rng.Int63n(cands[i].Amount.Int64()))
+				if rng.Intn(6) == 0 {
+					amt = cands[i].Amount.AddRaw(1) // more than held: refused
+				}
+				e.l2burn(who[i], sdk.NewCoin(cands[i].Denom, amt))
+			}
+			continue
+		}
 		if rng.Intn(45) == 0 {
 			// governance changes the unstaking period in the middle of the episode (both directions, valid values): the
 			// undelegations on record keep the expiry they were created with, so expiries are no longer ordered by id
@@ -1422,6 +1494,18 @@ func (e *c10) episode(n int, ep int) {
 
 // ---------- known-finding witnesses (the closed terms of SekaiProofs.Props.C10) replayed on the real code
 func c10Witnesses(r *Rec) {
+	// (0) l2_burn_share_supply_counterexample: a delegator burns share tokens through layer2 MsgMintBurnTx
+	{
+		e := newC10(r, 6, 2, "0.5")
+		e.load()
+		r.Mark("witness l2-burn of share tokens")
+		e.upsert(0, 0, true, sdk.MustNewDecFromStr("0.5"))
+		e.delegate(2, 0, sdk.NewCoins(sdk.NewInt64Coin("ukex", 1000)))
+		if p, found := e.w.app.MultiStakingKeeper.GetStakingPoolByValidator(e.ctx, e.val(0)); found {
+			e.l2burn(2, sdk.NewInt64Coin(mstypes.GetPoolPrefix(p.Id)+"ukex", 400))
+		}
+		e.obsAll()
+	}
 	// (1) undelegate_after_slash_counterexample: two delegators 1000 each, slash 50 %, the holder of half of the
 	// shares undelegates the whole remaining stake
 	{
